@@ -274,6 +274,13 @@ def run_case(case, ctx):
         hists = ([case["prefix"] + list(rest)
                   for rest in itertools.product(alpha,
                                                 repeat=case["enumerate"])])
+    try:
+        build_captured(cfg)
+    except Exception:
+        # construction failures are C17's / C01's business, not finalize's
+        return {"violations": contracts.drain(), "evals": {},
+                "counters": {"construct_errors": 1}, "nontrivial": False,
+                "key": cfg_str(cfg) + "|construct"}
     for h in hists:
         try:
             if run_history(cfg, h, H):
